@@ -357,7 +357,7 @@ func (c *TCPconnect) HandleConn(ctx context.Context, conn net.Conn) {
 
 			n, err := frameBuffer.b.Read(rawFrame)
 
-			frame := rawFrame[:n]
+			frame := append([]byte(nil), rawFrame[:n]...) // copy: rawFrame is reused by the next flush
 
 			frameBuffer.b.Reset()
 
